@@ -224,4 +224,8 @@ class C03(Check):
         return None
 
 
+    def bounded_stand_in(self, tier, undecided):
+        from checks import native
+        return native.stand_in(['C03.'], tier, undecided)
+
 CHECK = C03()
